@@ -13,11 +13,16 @@ trap 'rm -rf "$TMP"' EXIT
 # 1. other architecture
 "$BIN" check -prop "$ID" -tier thorough -repo "$REPO" -verif "$VERIF" -arch 386 -no-evidence > "$TMP/386.out" 2>&1
 rc386=$?
+# The self-test runs a dozen analyses at a time (about 1.4 GB each). Thorough runs of several
+# properties started side by side take turns here instead of multiplying that; the refactor
+# sweep is computed by whoever comes first and reused by the others (cache keyed by tree).
+LOCK=${TMPDIR:-/tmp}/thunderlint-selftest.lock
+run_locked() { if command -v flock >/dev/null 2>&1; then flock "$LOCK" "$@"; else "$@"; fi; }
 # 2. variants
-python3 "$VERIF/scripts/variants.py" "$ID" "$REPO" --json "$TMP/variants.json" > "$TMP/variants.out" 2>&1
+run_locked python3 "$VERIF/scripts/variants.py" "$ID" "$REPO" --json "$TMP/variants.json" > "$TMP/variants.out" 2>&1
 rcvar=$?
 # 2b. false-alarm sweep: the behaviour-preserving refactors under benign/ must leave this property silent
-python3 "$VERIF/scripts/refactors.py" "$REPO" --prop "$ID" --json "$TMP/refactors.json" > "$TMP/refactors.out" 2>&1
+run_locked python3 "$VERIF/scripts/refactors.py" "$REPO" --prop "$ID" --json "$TMP/refactors.json" > "$TMP/refactors.out" 2>&1
 rcref=$?
 EXTRA=$(python3 - "$TMP/variants.json" "$rc386" "$TMP/refactors.json" <<'PY'
 import json,sys
